@@ -483,7 +483,7 @@ class Machine:
             return srce
         xform_fn = units.convert_fn(self._reg.unit_mode, UnitMode.RAW)
         return ColorMatrix.new_from_iterable(srce.height, srce.width,
-            (xform_fn(color) for color in srce.get_colors()))
+            (xform_fn(color) for color in srce.as_list()))
 
     def _assure_units(self, color):
         """
